@@ -4,6 +4,7 @@ import (
 	"time"
 
 	"github.com/karagenc/socket.io-go/internal/sync"
+	"github.com/karagenc/socket.io-go/internal/verifhook"
 
 	"github.com/karagenc/socket.io-go/parser"
 	"github.com/karagenc/yeast"
@@ -66,6 +67,9 @@ func newSessionAwareAdapter(
 func (a *sessionAwareAdapter) cleaner() {
 	for {
 		time.Sleep(a.cleanerDuration)
+		if verifhook.Stop("sessionAwareAdapter.cleaner") {
+			return
+		}
 
 		a.mu.Lock()
 		for sessionID, session := range a.sessions {
@@ -175,6 +179,7 @@ func (a *sessionAwareAdapter) Broadcast(header *parser.PacketHeader, v []any, op
 		}
 		a.packets = append(a.packets, packet)
 		a.mu.Unlock()
+		verifhook.Point("sessionAwareAdapter.Broadcast:logged")
 	}
 	a.inMemoryAdapter.Broadcast(header, v, opts)
 }
